@@ -63,6 +63,14 @@ var c02Families = []c02Family{
 			g = append(g, 14)
 			return refcff.Assemble(&refcff.AsmSpec{Name: "Amp", CharStrings: [][]byte{{14}, g}, GlyphNames: []string{"A"}, Privates: []refcff.AsmPrivate{{LocalSubrs: subrs}}})
 		}, []int{1, 2, 3, 4, 6, 8}},
+	{"CFF: the Private operator declares a DICT of 1024*k*k bytes in a file of a few dozen bytes", "cff.Read",
+		func(k int) []byte {
+			return refcff.Assemble(&refcff.AsmSpec{Name: "Big", CharStrings: [][]byte{{14}, {14}}, GlyphNames: []string{"A"}, Privates: []refcff.AsmPrivate{{}}, PrivateSize: 1024 * k * k})
+		}, []int{1, 4, 32, 256, 1024}},
+	{"CFF (CID-keyed): the Private operator of a Font DICT declares a DICT of 1024*k*k bytes", "cff.Read",
+		func(k int) []byte {
+			return refcff.Assemble(&refcff.AsmSpec{Name: "Big", CID: true, CharStrings: [][]byte{{14}, {14}}, Privates: []refcff.AsmPrivate{{}}, FDSelect: []int{0, 0}, PrivateSize: 1024 * k * k})
+		}, []int{1, 4, 32, 256, 1024}},
 	{"name: k records that all refer to one shared string of 64k bytes", "name.Decode",
 		func(k int) []byte {
 			l := min(65534, 64*k)
